@@ -77,7 +77,7 @@ static __attribute__((noinline)) void do_case(unsigned i) {
 extern "C" void harness_c04_status() {
   unsigned sel = v_nondet_u32();
   v_assume(sel < NCASES);
-  dispatch<Case, NCASES>(sel);
+  dispatch<CaseW, NCASES>(sel);
 }
 
 // ---- deferred deletions + collect_garbage == the same deletions performed immediately, up to renumbering ---------------------------
@@ -151,7 +151,7 @@ static void do_equiv_case(unsigned i) {
   }
   v_witness("C04 equiv case end");
 }
-template <unsigned I> void ECase<I>::run() { do_equiv_case(I); }
+template <unsigned I> void ECase<I>::run() { do_equiv_case(I); v_witness("case returned"); }
 extern "C" void harness_c04_equiv() {
   unsigned sel = v_nondet_u32();
   v_assume(sel < NCASES);
